@@ -61,6 +61,7 @@ fn layers(id: &str) -> (&'static str, Vec<Layer>) {
             Layer { tool: Miri, kind: "hist", extra: &[("hist", "1")], quick: 0, thorough: 32 },
         ]),
         "C09" => ("c09", vec![
+            Layer { tool: Miri, kind: "mix", extra: &[("probe_only", "1")], quick: 1, thorough: 2 },
             Layer { tool: Miri, kind: "mix", extra: &[("limit", "1")], quick: 0, thorough: 32 },
         ]),
         "C12" => ("c12", vec![
